@@ -216,7 +216,9 @@ def run_real(exe, case, timeout=20, keep_dir=False):
         elif b"terminate called" in err:
             res.crash = res.crash or "terminate"
         if case.mode == "repl":
-            out = BANNER_RE.sub(b"", out, count=1)
+            # the banner is whatever precedes the first prompt
+            k = out.find(b"> ")
+            out = out[k:] if k >= 0 else BANNER_RE.sub(b"", out, count=1)
             chunks = err.split(MARK)
             for ch in chunks:
                 ds, other = parse_stderr(ch.decode("latin1"))
